@@ -584,12 +584,14 @@ def same(model, impl, rtol=RTOL):
     """model: Fraction or None (nan); impl: float or None (nan)"""
     if model is None or impl is None:
         return model is None and impl is None
+    if impl in (float('inf'), float('-inf')):
+        return False                    # the model's values are finite
     return core.close(model, impl, rtol, 0.0)
 
 
 def arg_same(model, impl, scale):
-    if impl is None or isinstance(impl, str):
-        return False
+    if impl is None or isinstance(impl, str) or impl != impl or impl in (float('inf'), float('-inf')):
+        return False                    # (diagnostic only) a non-finite argument handed to the cdf never equals the model's
     if Fraction(float(model)) == model:
         if core.frac(impl) == model:
             return True
